@@ -466,9 +466,15 @@ impl World {
             );
         }
         let o = &self.objs[idx];
-        if let Some(c) = o.m_created {
-            if c != m.created {
-                self.viol(&["C13"], "metrics_created_changed", format!("created instant of obj{} changed (seen by {})", id, kind.name()));
+        match o.m_created {
+            Some(c) => {
+                if c != m.created {
+                    self.viol(&["C13"], "metrics_created_changed", format!("created instant of obj{} changed (seen by {})", id, kind.name()));
+                }
+            }
+            None => {
+                // first sight of the object (a post_create hook): that is its creation instant from now on
+                self.objs[idx].m_created = Some(m.created);
             }
         }
         let o = &self.objs[idx];
@@ -696,6 +702,39 @@ impl World {
     pub fn on_call_dropped(&mut self, tk: Ticket) {
         if tk.task == usize::MAX {
             return;
+        }
+        // why may the pool drop the future of a callback before it finished?
+        //  - the caller abandons the get() (drop / enclosing timeout / teardown)
+        //  - a create / recycle timeout of a pool with a runtime has expired
+        if !self.teardown {
+            let now = tokio::time::Instant::now();
+            let t = &self.tasks[tk.task];
+            let outer_due = match (t.kind.outer, t.started_at) {
+                (Some(d), Some(s)) => now >= s + d,
+                _ => false,
+            };
+            let abandoned = matches!(self.op, Op::Abandon(_) | Op::DropPool) || (matches!(self.op, Op::Poll(_)) && outer_due);
+            let timeout_due = |d: Option<std::time::Duration>| match (d, t.call_started_at) {
+                (Some(d), Some(s)) => self.cfg.runtime && now >= s + d,
+                _ => false,
+            };
+            let by_timeout = match tk.kind {
+                CallKind::Create => timeout_due(t.eff.create),
+                CallKind::Recycle => timeout_due(t.eff.recycle),
+                _ => false,
+            };
+            // a create timeout on a pool without runtime: the call ends with NoRuntimeSpecified and the
+            // (never polled) create future is dropped; no object is involved
+            let no_runtime_create = tk.kind == CallKind::Create && !self.cfg.runtime && t.eff.create.is_some();
+            let panicking = std::thread::panicking();
+            if !abandoned && !by_timeout && !panicking && !no_runtime_create {
+                let (k, ef, rt) = (tk.kind.name(), t.eff, self.cfg.runtime);
+                self.viol(
+                    &["C04", "C10"],
+                    "callback_cancelled_without_reason",
+                    format!("the pool dropped the future of {} of task {} although the caller did not give up and no timeout was due (timeouts {:?}, runtime {})", k, tk.task, ef, rt),
+                );
+            }
         }
         let _ = self.end_call(tk, Outcome::Dropped);
     }
